@@ -57,6 +57,7 @@ def configs(tier):
 
 
 def run(prog, rep):
+    lemmas.load_all()
     obs = enumerate_obligations(prog)
     counts = {}
     table_hits = {}
